@@ -30,7 +30,7 @@ def _canon(vh, behs, i, n):
         with open(p, "w") as f:
             for b in behs:
                 f.write(json.dumps(b) + "\n")
-        return parse_vh_json(run_vh(vh, ["xml-canon", p, str(n)], env={"VERIF_TMP": d, "VERIF_SEED": str(seed() * 100 + i)}, timeout=3000), f"xml-canon {i}")
+        return parse_vh_json(run_vh(vh, ["xml-canon", p, str(n)], env={"VERIF_TMP": d, "VERIF_SEED": str(seed() * 100 + i), "VERIF_JAVA_CP": os.path.join(VERIF, "build", "java")}, timeout=3000), f"xml-canon {i}")
     finally:
         shutil.rmtree(d, ignore_errors=True)
 
@@ -70,7 +70,7 @@ def run(t):
         ndocs += o["counters"].get("documents", 0)
     d = scratch("c19s")
     try:
-        o = parse_vh_json(run_vh(vh, ["xml-signed", "150" if deep else "40"], env={"VERIF_TMP": d}, timeout=3000), "xml-signed")
+        o = parse_vh_json(run_vh(vh, ["xml-signed", "150" if deep else "40"], env={"VERIF_TMP": d, "VERIF_JAVA_CP": os.path.join(VERIF, "build", "java")}, timeout=3000), "xml-signed")
     finally:
         shutil.rmtree(d, ignore_errors=True)
     if o["counters"].get("oracle_disagreements"):
@@ -101,7 +101,7 @@ def replay(path):
     d = scratch("c19s")
     try:
         if obj["key"].get("engine") == "xml-signed":
-            _absorb(run, parse_vh_json(run_vh(vh, ["xml-signed", "150"], env={"VERIF_TMP": d}, timeout=3000), "xml-signed"))
+            _absorb(run, parse_vh_json(run_vh(vh, ["xml-signed", "150"], env={"VERIF_TMP": d, "VERIF_JAVA_CP": os.path.join(VERIF, "build", "java")}, timeout=3000), "xml-signed"))
         else:
             print(json.dumps(obj["replay"], indent=1)[:2000])
             print("re-run: ./check C19 (documents are regenerated by TLC)")
